@@ -15,7 +15,6 @@ func unionRules(c *Ctx)    {}
 func diffHelpers(c *Ctx)   {}
 
 func resultDiscipline(c *Ctx, fns []string)          {}
-func noExitRule(c *Ctx, entries []string)            {}
 func wellFounded(c *Ctx, entries []string)           {}
 func geometricAccumulation(c *Ctx, ds []*declInfo)   {}
 func serializerState(c *Ctx)                         {}
